@@ -66,9 +66,25 @@ class JetField:
     def D(self, x, wrt):
         return self.jets.D(x, wrt)
 
-    def point_of(self, Rsym):
+    def point_of(self, Rsym, Zsym=None):
+        """The jet point an evaluation refers to.  If the argument is not literally the
+        point's own symbol (e.g. it went through numpy.clip), the evaluation is attributed
+        to the point whose symbol occurs in it and the obligation `argument == point` is
+        posted: evaluating the interpolant somewhere else is a contract failure, not a crash."""
+        from vc.sym import term_vars
+
         for l, p in self.points.items():
-            if isinstance(Rsym, Sym) and Rsym.t.eq(p.R.t):
+            if isinstance(Rsym, Sym) and Rsym.t.eq(p.R.t) and (Zsym is None or (isinstance(Zsym, Sym) and Zsym.t.eq(p.Z.t))):
+                return p
+        for l, p in self.points.items():
+            names = set()
+            for x in (Rsym, Zsym):
+                if isinstance(x, Sym):
+                    names |= {n for n, _ in term_vars(x.t)}
+            if p.R.t.decl().name() in names or p.Z.t.decl().name() in names:
+                self.ctx.oblige(Rsym == p.R, "interpolant evaluated at the R of the point itself%s" % p.suffix)
+                if Zsym is not None:
+                    self.ctx.oblige(Zsym == p.Z, "interpolant evaluated at the Z of the point itself%s" % p.suffix)
                 return p
         raise LookupError("evaluation at a point that is not one of the jet points: %r" % (Rsym,))
 
@@ -77,9 +93,7 @@ class JetField:
         from hypnotoad.core.multilocationarray import MultiLocationArray
 
         def one(R, Z):
-            p = self.point_of(R)
-            if not (isinstance(Z, Sym) and Z.t.eq(p.Z.t)):
-                raise LookupError("%s evaluated at mismatching (R,Z)" % name)
+            p = self.point_of(R, Z)
             self.calls.append((name, p.suffix))
             return getter(p)
 
